@@ -458,7 +458,7 @@ def screening(ctx):
             ctx.ob("R12.4", "screen-before-lex|" + g.id.split("::", 1)[1], okd,
                    "the token stream is created only after detect_invalid_input accepted the whole source" if okd else
                    "a token stream is created without screening the source first", site="%s in %s" % (t.span, g.id))
-    ctx.floor("R12.4", 7)
+    ctx.floor("R12.4", 5)   # anchor, three sets, >=1 span site, >=1 lexer creation (a shared error return has one span site)
 
 
 def versions_and_paths(ctx):
